@@ -39,7 +39,7 @@ def as_list(am):
 
 
 def run(ctx):
-    sf = env.load_selfies()
+    sf = env.varied(env.load_selfies(), ctx)
     rng = ctx.rng
     quick = ctx.tier == "quick"
     # ------------------------------------------------------------ decoder
